@@ -117,19 +117,19 @@ theorem nodup_dedup {α} [DecidableEq α] (l : List α) : (dedup l).Nodup := by
     · rename_i h; exact List.nodup_cons.2 ⟨fun h' => h ((mem_dedup _ _).1 h'), ih⟩
 
 theorem mem_relSet (σ : Schema) (x : Rel) :
-    x ∈ σ.relSet ↔ ∃ t ∈ σ.types, ∃ r ∈ t.rels.vals, r.normalize = x := by
+    x ∈ σ.relSet ↔ ∃ t ∈ σ.types, ∃ r ∈ t.rels.vals, (σ.complete t r).normalize = x := by
   simp [relSet, mem_dedup, List.mem_flatMap, List.mem_map]
 
 theorem mem_relsSorted (σ : Schema) (x : Rel) :
-    x ∈ σ.relsSorted ↔ ∃ t ∈ σ.types, ∃ r ∈ t.rels.vals, r.normalize = x := by
+    x ∈ σ.relsSorted ↔ ∃ t ∈ σ.types, ∃ r ∈ t.rels.vals, (σ.complete t r).normalize = x := by
   rw [relsSorted, (List.mergeSort_perm _ _).mem_iff, mem_relSet]
 
 theorem nodup_relsSorted (σ : Schema) : σ.relsSorted.Nodup :=
   (List.mergeSort_perm _ _).nodup_iff.2 (nodup_dedup _)
 
 theorem relsSorted_ext (σ₁ σ₂ : Schema)
-    (h : ∀ x, (∃ t ∈ σ₁.types, ∃ r ∈ t.rels.vals, r.normalize = x) ↔
-              (∃ t ∈ σ₂.types, ∃ r ∈ t.rels.vals, r.normalize = x)) :
+    (h : ∀ x, (∃ t ∈ σ₁.types, ∃ r ∈ t.rels.vals, (σ₁.complete t r).normalize = x) ↔
+              (∃ t ∈ σ₂.types, ∃ r ∈ t.rels.vals, (σ₂.complete t r).normalize = x)) :
     σ₁.relsSorted = σ₂.relsSorted := by
   apply List.Perm.eq_of_pairwise (le := fun a b => Rel.le a b = true)
   · intro a b _ _ h1 h2; exact Rel.le_antisymm' a b h1 h2
@@ -138,27 +138,98 @@ theorem relsSorted_ext (σ₁ σ₂ : Schema)
   · rw [List.perm_ext_iff_of_nodup (nodup_relsSorted _) (nodup_relsSorted _)]
     intro x; rw [mem_relsSorted, mem_relsSorted]; exact h x
 
-theorem relsSorted_types_perm (σ₁ σ₂ : Schema) (h : σ₁.types.Perm σ₂.types) :
+/-! #### the completion does not depend on the order of the types or of the map entries -/
+
+/-- The completion, from what it reads of the target type: its matching relationships. -/
+theorem complete_congr (σ₁ σ₂ : Schema) (t₁ t₂ : Typ) (r : Rel) (hn : t₁.name = t₂.name)
+    (hp : (σ₁.getType r.toType).rels.Perm (σ₂.getType r.toType).rels) :
+    σ₁.complete t₁ r = σ₂.complete t₂ r := by
+  have hb : (σ₁.backRels t₁ r).Perm (σ₂.backRels t₂ r) := by
+    unfold backRels; rw [hn]; exact (hp.map (·.2)).filter _
+  unfold complete
+  rw [hb.isEmpty_eq, hb.all_eq]
+
+/-- In a list of types with distinct names, the first type of a name is the type of that name. -/
+theorem find?_name_of_nodup {l : List Typ} (nd : (l.map (·.name)).Nodup) {t : Typ} (ht : t ∈ l) :
+    l.find? (fun u => decide (u.name = t.name)) = some t := by
+  induction l with
+  | nil => cases ht
+  | cons a l ih =>
+    rw [List.map_cons, List.nodup_cons] at nd
+    rw [List.find?_cons]
+    rcases List.mem_cons.1 ht with rfl | ht'
+    · simp
+    · have : ¬ a.name = t.name := fun e => nd.1 (e ▸ List.mem_map.2 ⟨t, ht', rfl⟩)
+      simp only [this, decide_false]
+      exact ih nd.2 ht'
+
+theorem getType_of_mem {σ : Schema} (nd : (σ.types.map (·.name)).Nodup) {t : Typ}
+    (ht : t ∈ σ.types) : σ.getType t.name = t := by
+  unfold getType; rw [find?_name_of_nodup nd ht]
+
+/-- `GetType` returns a type of the schema with that name, or the zero type. -/
+theorem getType_cases (σ : Schema) (n : GoString) :
+    (σ.getType n ∈ σ.types ∧ (σ.getType n).name = n) ∨ σ.getType n = Typ.empty := by
+  unfold getType
+  cases h : σ.types.find? (fun t => decide (t.name = n)) with
+  | none => exact .inr rfl
+  | some t =>
+    refine .inl ⟨List.mem_of_find?_eq_some h, ?_⟩
+    simpa using List.find?_some h
+
+theorem getType_perm (σ₁ σ₂ : Schema) (h : σ₁.types.Perm σ₂.types)
+    (nd : (σ₁.types.map (·.name)).Nodup) (n : GoString) : σ₁.getType n = σ₂.getType n := by
+  have nd₂ : (σ₂.types.map (·.name)).Nodup := (h.map _).nodup_iff.1 nd
+  rcases getType_cases σ₁ n with ⟨hm, hn⟩ | he
+  · have := getType_of_mem nd₂ (h.mem_iff.1 hm)
+    rw [hn] at this; exact this.symm
+  · rcases getType_cases σ₂ n with ⟨hm, hn⟩ | he₂
+    · have := getType_of_mem nd (h.mem_iff.2 hm)
+      rw [hn] at this; exact this
+    · rw [he, he₂]
+
+/-- Types in another order (distinct names, as C14 keeps them: with two types of one name
+`GetType` - hence the completion - would depend on which comes first). -/
+theorem relsSorted_types_perm (σ₁ σ₂ : Schema) (h : σ₁.types.Perm σ₂.types)
+    (nd : (σ₁.types.map (·.name)).Nodup) :
     σ₁.relsSorted = σ₂.relsSorted := by
+  have hc : ∀ t r, σ₁.complete t r = σ₂.complete t r := fun t r =>
+    complete_congr σ₁ σ₂ t t r rfl (by rw [getType_perm σ₁ σ₂ h nd])
   apply relsSorted_ext; intro x
   constructor
-  · rintro ⟨t, ht, r⟩; exact ⟨t, h.mem_iff.1 ht, r⟩
-  · rintro ⟨t, ht, r⟩; exact ⟨t, h.mem_iff.2 ht, r⟩
+  · rintro ⟨t, ht, r, hr, e⟩; exact ⟨t, h.mem_iff.1 ht, r, hr, by rw [← hc]; exact e⟩
+  · rintro ⟨t, ht, r, hr, e⟩; exact ⟨t, h.mem_iff.2 ht, r, hr, by rw [hc]; exact e⟩
 
+theorem getType_forall₂ (l₁ l₂ : List Typ)
+    (h : Forall2 (fun t₁ t₂ : Typ => t₁.name = t₂.name ∧ t₁.rels.Perm t₂.rels) l₁ l₂) (n : GoString) :
+    (getType ⟨l₁⟩ n).rels.Perm (getType ⟨l₂⟩ n).rels := by
+  unfold getType
+  induction h with
+  | nil => exact .refl _
+  | @cons a b l₁ l₂ hab _ ih =>
+    simp only [List.find?_cons, ← hab.1]
+    by_cases e : a.name = n
+    · simp only [e, decide_true]; exact hab.2
+    · simp only [e, decide_false]; exact ih
+
+/-- The same types in the same order, each with its map iterated in another order. -/
 theorem relsSorted_forall₂ (σ₁ σ₂ : Schema)
-    (h : Forall2 (fun t₁ t₂ : Typ => t₁.rels.Perm t₂.rels) σ₁.types σ₂.types) :
+    (h : Forall2 (fun t₁ t₂ : Typ => t₁.name = t₂.name ∧ t₁.rels.Perm t₂.rels) σ₁.types σ₂.types) :
     σ₁.relsSorted = σ₂.relsSorted := by
   apply relsSorted_ext; intro x
-  have key : ∀ (l₁ l₂ : List Typ), Forall2 (fun t₁ t₂ : Typ => t₁.rels.Perm t₂.rels) l₁ l₂ →
-      ((∃ t ∈ l₁, ∃ r ∈ t.rels.vals, r.normalize = x) ↔
-       (∃ t ∈ l₂, ∃ r ∈ t.rels.vals, r.normalize = x)) := by
+  have hc : ∀ t₁ t₂ r, t₁.name = t₂.name → σ₁.complete t₁ r = σ₂.complete t₂ r := fun t₁ t₂ r hn =>
+    complete_congr σ₁ σ₂ t₁ t₂ r hn (getType_forall₂ _ _ h _)
+  have key : ∀ (l₁ l₂ : List Typ),
+      Forall2 (fun t₁ t₂ : Typ => t₁.name = t₂.name ∧ t₁.rels.Perm t₂.rels) l₁ l₂ →
+      ((∃ t ∈ l₁, ∃ r ∈ t.rels.vals, (σ₁.complete t r).normalize = x) ↔
+       (∃ t ∈ l₂, ∃ r ∈ t.rels.vals, (σ₂.complete t r).normalize = x)) := by
     intro l₁ l₂ hf
     induction hf with
     | nil => simp
     | @cons a b l₁ l₂ hp _ ih =>
       have hv : ∀ r, r ∈ GoMap.vals a.rels ↔ r ∈ GoMap.vals b.rels := fun r =>
-        (hp.map (·.2)).mem_iff
-      simp only [List.mem_cons, exists_eq_or_imp, hv, ih]
+        (hp.2.map (·.2)).mem_iff
+      simp only [List.mem_cons, exists_eq_or_imp, hv, ih, hc a b _ hp.1]
   exact key _ _ h
 
 end Schema
